@@ -237,6 +237,12 @@ func pfPrelude() []pfCase {
 		st("app.x.io", "/oauth2/sign_out", S("app.x.io", nil), func(s *pfStep) { s.Proto = "https" }),
 		st("app.x.io", "/", S("app.x.io", func(s *pfSess) { s.Email = "x@evil.io" }), func(s *pfStep) { s.Proto = "https" }),
 		st("nope.x.io", "/", none, func(s *pfStep) { s.Proto = "https" }),
+		// X-Forwarded-Proto as a chain of forwarders writes it: the client's own hop comes first
+		st("app.x.io", "/", S("app.x.io", nil), func(s *pfStep) { s.Proto = "http, https" }),
+		st("app.x.io", "/a?b=c", none, func(s *pfStep) { s.Proto = "http,https" }),
+		st("app.x.io", "/", S("app.x.io", nil), func(s *pfStep) { s.Proto = "http, https, https" }),
+		st("app.x.io", "/health", none, func(s *pfStep) { s.Proto = "http, https" }),
+		st("app.x.io", "/", S("app.x.io", nil), func(s *pfStep) { s.Proto = "https, http" }),
 		// upstream answers that carry the protected headers with an empty value, alone or ahead of a real one
 		st("app.x.io", "/", S("app.x.io", nil), func(s *pfStep) { s.Proto = "https"; s.Upstream = upEmpty }),
 		st("app.x.io", "/", S("app.x.io", nil), func(s *pfStep) { s.Proto = "https"; s.Upstream = upEmptyFirst }),
@@ -274,6 +280,14 @@ func pfPrelude() []pfCase {
 		st("admin--db.apps.x.io", "/", S("admin--db.apps.x.io", func(s *pfSess) { s.Slug = "okta" }), nil),
 		st("app.x.io", "/", S("app.x.io", nil), nil),
 		st("admin--db.apps.x.io", "/", root("admin--db.apps.x.io"), nil),
+	}})
+	// encoded dot segments behind a skip-auth prefix: whatever is decided about the path is decided about the path the backend gets
+	cases = append(cases, pfCase{Cfg: base, Steps: []pfStep{
+		st("app.x.io", "/public/%2e%2e/admin/secrets", none, nil),
+		st("app.x.io", "/public/..%2Fadmin/secrets", none, nil),
+		st("app.x.io", "/public/%2E%2E/admin", S("app.x.io", nil), nil),
+		st("app.x.io", "/public/x/%2e%2e/y", none, nil),
+		st("app.x.io", "/a/%2e%2e/public/x", none, nil),
 	}})
 	// the same host name on two ports is two upstreams: a session is bound to the Host it was issued for, port included
 	prt := pfBaseCfg()
@@ -378,7 +392,8 @@ func init() {
 		emails := []string{"ann@x.io", "Ann@X.io", "bob@y.io", "eve@evil.io", "ann@x.io.evil.io", "x@notx.io"}
 		targets := []string{"/", "/a/b?q=1", "/health", "/healthz", "/public/x", "/oauth2/auth", "/favicon.ico", "/robots.txt", "/oauth2/sign_out",
 			"/a//b", "/a/../b", "/%2e%2e/x", "/a%2Fb", "//evil.io/x", "/\\evil.io", "/ping", "/oauth2/v1/certs", "/x?y=//z",
-			"/x.css", "/x?y=.css", "/x?y=/health", "/%2Fevil.io/", "/%2F%2Fevil.io/x", "/q?a=1;b=2", "/q?p=%zz"}
+			"/x.css", "/x?y=.css", "/x?y=/health", "/%2Fevil.io/", "/%2F%2Fevil.io/x", "/q?a=1;b=2", "/q?p=%zz",
+			"/public/%2e%2e/admin/secrets", "/public/..%2Fadmin", "/public/%2E%2E/%2e%2e/x", "/public/a/%2e/b", "/health/%2e%2e/public/x"}
 		replies := func(okStatus int) pfReply {
 			if rng.Intn(60) == 0 {
 				return pfReply{Kind: "hang"}
@@ -473,6 +488,10 @@ func init() {
 					}
 					if cfg.Secure && rng.Intn(4) > 0 {
 						s.Proto = "https"
+						if rng.Intn(6) == 0 {
+							// what a chain of forwarders writes: only a request every hop saw as https counts as https
+							s.Proto = []string{"http, https", "http,https", "https, http", "http, https, https", "HTTPS", "http", "ws"}[rng.Intn(7)]
+						}
 					}
 					switch rng.Intn(10) {
 					case 0:
